@@ -3,7 +3,7 @@ import ast
 import itertools
 
 from vstat.loader import AnalysisError
-from vstat.terms import IT, builder, show, SELF, NONE, G, alts, walk, mentions, phi, strip_none, neg_test
+from vstat.terms import subst, IT, CMP, ordered, builder, show, SELF, NONE, G, alts, walk, mentions, phi, strip_none, neg_test
 from vstat.guards import path_conditions, exception_name
 from vstat.cfg import cfg_of, EXIT
 from vstat.dataflow import rd_of
@@ -29,13 +29,17 @@ ASSUME = ["IEEE arithmetic: two different expressions of one real edge are not a
 def run(prog, rep):
     rep.explanation = EXPL
     rep.assumptions = ASSUME
-    align(prog, rep, "C10.align")
-    width_slicer(prog, rep)
-    number_slicer(prog, rep)
-    refs_guard(prog, rep)
-    drop(prog, rep)
-    minimum(prog, rep)
-    ppi(prog, rep)
+    rep.part(align, prog, rep, "C10.align")
+    rep.part(width_slicer, prog, rep)
+    rep.part(number_slicer, prog, rep)
+    rep.part(refs_guard, prog, rep)
+    rep.part(drop, prog, rep)
+    rep.part(minimum, prog, rep)
+    rep.part(ppi, prog, rep)
+    from .purity import stateless, methods
+    stateless(prog, rep, "C10.stateless", methods(prog, {f"{IV}.IntervalSlicer": ["slice_", "_drop_too_small_intervals"], f"{IV}.WidthOfIntervalSlicer": ["_slice"],
+                                                          f"{IV}.NumberOfIntervalsSlicer": ["_slice"], f"{IV}.PointsPerIntervalSlicer": ["_slice"]}), what="slicing")
+    rep.expect_min("C10.stateless", 5)
     rep.expect_min("C10.align", 4)
     rep.expect_min("C10.ops", 5)
     rep.expect_min("C10.edge", 4)
@@ -499,8 +503,7 @@ def drop(prog, rep):
                 trip_ok = kept[2][1] == tuple(("sub", ("param", f), i) for f in formals)
                 mask = ("sub", ("param", formals[0]), i)
                 conds = kept[5] if isinstance(kept[5], tuple) else ()
-                cond_ok = len(conds) == 1 and conds[0][0] == "cmp" and conds[0][1] == ">=" and conds[0][3] == ("attr", SELF, "min_n_points") \
-                    and conds[0][2] in (("call", G("numpy.sum"), (mask,), ()), ("call", ("attr", mask, "sum"), (), ()), ("call", G("numpy.count_nonzero"), (mask,), ()))
+                cond_ok = len(conds) == 1 and _size_test(conds[0], mask)
                 j = ("idx", proj[3], "iter")
                 proj_ok = proj[2] == ("sub", ("sub", kept, j), ("const", k)) or proj[2] == ("item", ("sub", kept, j), k) or proj[2] == ("sub", ("param", formals[k]), i)
                 # element j of the kept list, component k
@@ -523,8 +526,7 @@ def drop(prog, rep):
             mask = ("sub", ("param", formals[0]), x[2]) if okarg else None
             cond_ok = False
             for l in pcs.of(st):
-                if l[0] == "cmp" and l[1] in (">=",) and l[3] == ("attr", SELF, "min_n_points") and l[2] in (
-                        ("call", G("numpy.sum"), (mask,), ()), ("call", ("attr", mask, "sum"), (), ()), ("call", G("numpy.count_nonzero"), (mask,), ())):
+                if _size_test(l, mask):
                     cond_ok = True
             ok = okarg and cond_ok and len(pcs.of(st)) == 1
             if okarg and not cond_ok:
@@ -534,6 +536,13 @@ def drop(prog, rep):
     ok = len(loops) == 1 and b.term(loops[0].iter, loops[0]) == ("call", G("zip"), tuple(("param", f) for f in formals), ())
     rep.check(ok, "C10.drop", f"{q}:zip", fn.where(), "one loop over zip(slices, references, boundaries)",
               "mask, reference and boundary of one interval must be walked together (zip of the three inputs in order)")
+
+
+def _size_test(l, mask):
+    """min_n_points <= number of points of this mask (either way round)"""
+    o = ordered(l)
+    return o is not None and not o[2] and o[0] == ("attr", SELF, "min_n_points") and o[1] in (
+        ("call", G("numpy.sum"), (mask,), ()), ("call", ("attr", mask, "sum"), (), ()), ("call", G("numpy.count_nonzero"), (mask,), ()))
 
 
 # ---------------------------------------------------------------------- min
@@ -548,7 +557,7 @@ def minimum(prog, rep):
     good = None
     for st in raises:
         pc = pcs.of(st)
-        want = ("cmp", "<", ("call", G("len"), (IT(sl, 0),), ()), ("attr", SELF, "min_n_intervals"))
+        want = CMP("<", ("call", G("len"), (IT(sl, 0),), ()), ("attr", SELF, "min_n_intervals"))
         if exception_name(st, b) == "RuntimeError" and pc == (want,):
             good = st
     rep.check(good is not None, "C10.min", f"{q}:raise", fn.where(good) if good else fn.where(),
@@ -577,14 +586,14 @@ def ppi(prog, rep):
     full = ("bin", "//", n, npts)
     rem = ("bin", "%", n, npts)
     lf = ("attr", SELF, "last_full")
-    rem_nz = ("not", ("cmp", "==", rem, ("const", 0)))
+    rem_nz = ("not", CMP("==", rem, ("const", 0)))
     cases = {}
     for st in cfg.all_stmts():
         if isinstance(st, ast.Assign) and isinstance(st.value, ast.Call):
             t = b.term(st.value, st)
             if t[0] == "call" and t[1] == G("numpy.split"):
                 pc = set(pcs.of(st))
-                key = ("rem", True) if rem_nz in pc and lf in pc else ("rem", False) if rem_nz in pc and ("not", lf) in pc else ("norem",) if ("cmp", "==", rem, ("const", 0)) in pc else None
+                key = ("rem", True) if rem_nz in pc and lf in pc else ("rem", False) if rem_nz in pc and ("not", lf) in pc else ("norem",) if CMP("==", rem, ("const", 0)) in pc else None
                 cases[key] = (st, t)
     def sl(lo, hi):
         return ("sub", srt, ("slice", lo, hi, NONE))
@@ -608,6 +617,26 @@ def ppi(prog, rep):
                     found = (args == [("const", 0), piece]) if meth == "insert" else (args == [piece])
             rep.check(found, "C10.ppi", inst + ":remainder", fn.where(c[0]), f"remainder chunk {show(piece)[:50]} placed {'first' if meth == 'insert' else 'last'}",
                       f"the remainder chunk {show(piece)[:60]} must be {'inserted first' if meth == 'insert' else 'appended last'} ({'last_full' if meth == 'insert' else 'not last_full'})")
+    # masks: membership of the POSITION in the chunk - a mask that sees the chunk only through the values data[chunk]
+    # (np.isin(data, data[idc])) cannot tell tied observations apart and puts a tie across a chunk boundary in two intervals
+    rets = [s for s in cfg.all_stmts() if isinstance(s, ast.Return)]
+    mt = None
+    if len(rets) == 1 and isinstance(rets[0].value, ast.Tuple) and rets[0].value.elts:
+        mt = b.term(rets[0].value.elts[0], rets[0])
+    # the comprehension over the chunks (possibly behind _drop_too_small_intervals(...)[0])
+    comps = [s_ for s_ in walk(mt)] if mt is not None else []
+    comps = [s_ for s_ in comps if s_[0] == "comp" and s_[1] == "list" and isinstance(s_[5], tuple) and (not s_[5] or s_[5][0] != "nested")
+             and any(w_[0] == "call" and w_[1] == G("numpy.split") for w_ in walk(s_[4]))]
+    mt = comps[0] if comps else None
+    if mt is not None:
+        chunk = ("sub", mt[4], ("idx", mt[3], "iter"))
+        by_value = subst(mt[2], {("sub", DATA, chunk): ("sym", "values-of-chunk")})
+        rep.check(mentions(by_value, chunk), "C10.ppi", f"{q}:masks-by-position", fn.where(rets[0]),
+                  "each mask is the membership of the observation's position in its chunk of the argsort",
+                  f"the mask of a chunk must mark the POSITIONS in the chunk; found {show(mt[2])[:140]}, which sees the chunk only through the values "
+                  "data[chunk]: observations tied across a chunk boundary are put in both intervals")
+    else:
+        rep.ok("C10.ppi", f"{q}:masks-by-position", fn.where(), "mask construction not a comprehension over the chunks: alignment decided by C10.align only", nontrivial=False)
     # boundaries: midpoint of neighbouring extremes
     mids = []
     for st in cfg.all_stmts():
